@@ -1112,6 +1112,31 @@ def chunk_suffix(ops, tid, size, tags):
             for i in range(0, len(ops), size)]
 
 
+def trcopy_drift(scripts, traces):
+    """trCopy / trPartialCopy of the real code against the transcription in
+    TrCopy.tla: the model's arrays after the call travel with every enumerated
+    situation (`expect`) and are compared entry by entry (informational)."""
+    compared = bad = 0
+    first = None
+    for sc in scripts:
+        if 'trcopy' not in sc.get('tags', []):
+            continue
+        tr = traces.get(sc['tid'])
+        if not tr:
+            continue
+        evs = [e for e in tr[1][1:] if e['op'] != 'end']
+        for o, e in zip(sc['ops'], evs):
+            if e['op'] != 'trcopy':
+                break
+            compared += 1
+            ex = o['expect']
+            if list(e.get('sa_after', [])) != list(ex['sa_after']) or list(e.get('isa_after', [])) != list(ex['isa_after']):
+                bad += 1
+                first = first or dict(tid=sc['tid'], s=o['s'], depth=o['depth'], partial=o['partial'], predicted=ex,
+                                      recorded=dict(sa_after=e.get('sa_after'), isa_after=e.get('isa_after')))
+    return dict(compared=compared, disagreements=bad, first=first, model='TrCopy.tla (trCopy, trPartialCopy)')
+
+
 def run_suffix(ctx, fam):
     t = ctx.thorough()
     scripts = []
@@ -1123,6 +1148,12 @@ def run_suffix(ctx, fam):
         vlib.tlc_mc(ctx, 'DivSufSortMC.tla', 'DivSufSortMC_bT.cfg' if t else 'DivSufSortMC_b.cfg', workers='16', timeout=1500)
         log('[C09] rank sort by prefix doubling (TrSortRounds.tla: consistent refinement, reads in range, finishes)')
         vlib.tlc_mc(ctx, 'TrSortRounds.tla', 'TrSortRounds_T.cfg' if t else 'TrSortRounds.cfg', workers='16', timeout=1500)
+        log('[C09] tandem repeat copy of the rank sort (TrCopy.tla: transcribed trCopy / trPartialCopy on every situation of the scope)')
+        if t:
+            vlib.tlc_mc(ctx, 'TrCopy.tla', 'TrCopy_T.cfg', workers='16', timeout=2400)
+        tops = vlib.tlc_enum(ctx, 'TrCopy.tla', 'TrCopy_genT.cfg' if t else 'TrCopy_gen.cfg', timeout=2400)
+        scripts += chunk_suffix(tops, 'trcopy-enum', 300, ['tlc-enum', 'trcopy'])
+        fam = dict(fam, _drift=trcopy_drift)
         log('[C09] LCP by the phi algorithm (LcpPhi.tla: the carried length is sound, the table is the definition)')
         vlib.tlc_mc(ctx, 'LcpPhi.tla', 'LcpPhi_T.cfg' if t else 'LcpPhi.cfg', workers='16', timeout=1500)
         log('[C09] enumerating short texts (TLC) and structured texts (seeded)')
